@@ -68,9 +68,9 @@ func byteName(b int) string {
 
 // Stats of one comparison.
 type Stats struct {
-	Pairs     int
-	Cells     int
-	RefStates map[int]bool
+	Pairs      int
+	Cells      int
+	RefStates  map[int]bool
 	ImplStates map[int]bool
 }
 
